@@ -407,6 +407,182 @@ def check_induced(prog: Program, res: Result) -> None:
                                fi.loc(i))
 
 
+def _worklist_shape(fi) -> tuple[str, str]:
+    """('ok'|'bad'|'unknown', reason) for a work-list graph search:
+    pop x from WL; x enters the result set R; every bonded neighbour of x that
+    is not in R yet is pushed; nothing leaves the loop early."""
+    fn = fi.node
+    loops = [n for n in ast.walk(fn) if isinstance(n, ast.While)]
+    if not loops:
+        return "unknown", "no while loop (search not written as a work list)"
+    w = loops[0]
+    test = w.test
+    if isinstance(test, ast.Name):
+        WL = test.id
+    elif isinstance(test, ast.Call) and call_name(test) == "len" and \
+            isinstance(test.args[0], ast.Name):
+        WL = test.args[0].id
+    elif isinstance(test, ast.Compare) and isinstance(test.left, ast.Call) \
+            and call_name(test.left) == "len" and isinstance(
+            test.left.args[0], ast.Name):
+        WL = test.left.args[0].id
+    else:
+        return "unknown", f"loop condition `{norm(test)}` is not a work list"
+    rets = [r for r in ast.walk(fn) if isinstance(r, ast.Return)
+            and r.value is not None]
+    if len(rets) != 1 or not isinstance(rets[0].value, ast.Name):
+        return "unknown", "result is not one returned set"
+    R = rets[0].value.id
+    if any(isinstance(n, (ast.Break, ast.Return)) for n in ast.walk(w)):
+        return "bad", "early exit inside the search loop"
+    popped = None
+    for n in ast.walk(w):
+        if isinstance(n, ast.Assign) and isinstance(n.value, ast.Call) and \
+                isinstance(n.value.func, ast.Attribute) and \
+                n.value.func.attr in ("pop", "popleft") and \
+                norm(n.value.func.value) == WL and isinstance(
+                n.targets[0], ast.Name):
+            popped = n.targets[0].id
+    if popped is None:
+        return "unknown", f"no `x = {WL}.pop()` in the loop"
+
+    def nbr_source(e):
+        """variable whose neighbours e enumerates, or None."""
+        if isinstance(e, ast.Call) and isinstance(e.func, ast.Attribute) and \
+                e.func.attr == "bonded_to" and len(e.args) == 1 and \
+                isinstance(e.args[0], ast.Name):
+            return e.args[0].id
+        if isinstance(e, ast.Subscript) and norm(e.value).endswith(
+                "_neighbors") and isinstance(e.slice, ast.Name):
+            return e.slice.id
+        if isinstance(e, ast.BinOp) and isinstance(e.op, ast.Sub) and \
+                norm(e.right) == R:
+            return nbr_source(e.left)
+        if isinstance(e, ast.Call) and call_name(e) in (
+                "set", "list", "tuple", "sorted", "iter") and len(e.args) == 1:
+            return nbr_source(e.args[0])
+        return None
+
+    def filter_ok(c, var) -> bool:
+        t = norm(c)
+        return t in (f"{var} not in {R}", f"{var} not in {WL}",
+                     f"{var} != {popped}", f"{var} is not {popped}",
+                     f"not {var} in {R}", f"{var} not in {R} and {var} not in {WL}")
+
+    sources = []        # (source variable, [filters], ok filters?)
+    unknown_push = []
+    mark_at_push = False
+    for n in ast.walk(w):
+        if isinstance(n, ast.For):
+            src = nbr_source(n.iter)
+            pushes = [c for c in ast.walk(n) if isinstance(c, ast.Call)
+                      and isinstance(c.func, ast.Attribute)
+                      and c.func.attr in ("append", "appendleft", "add",
+                                          "extend", "update")
+                      and norm(c.func.value) == WL]
+            if not pushes:
+                continue
+            if src is None or not isinstance(n.target, ast.Name):
+                unknown_push.append(norm(n.iter, 60))
+                continue
+            var = n.target.id
+            for c in pushes:
+                if not (len(c.args) == 1 and norm(c.args[0]) == var):
+                    unknown_push.append(norm(c, 60))
+                    continue
+                conds = []
+                for a in ancestors(c):
+                    if a is n:
+                        break
+                    if isinstance(a, ast.If):
+                        # the push sits in body or orelse
+                        in_body = any(c is x for b in a.body
+                                      for x in ast.walk(b))
+                        conds.append(a.test if in_body else ast.UnaryOp(
+                            ast.Not(), a.test))
+                # `if v in R: continue` filters earlier in the loop body
+                for st in n.body:
+                    if isinstance(st, ast.If) and any(isinstance(
+                            b, ast.Continue) for b in st.body):
+                        conds.append(ast.UnaryOp(ast.Not(), st.test))
+                texts = []
+                good = True
+                for cnd in conds:
+                    t = norm(cnd)
+                    t = re.sub(r"^not \((\w+) in (\w+)\)$", r"\1 not in \2", t)
+                    t = re.sub(r"^not (\w+) in (\w+)$", r"\1 not in \2", t)
+                    texts.append(t)
+                    good &= t in (f"{var} not in {R}", f"{var} not in {WL}",
+                                  f"{var} != {popped}")
+                sources.append((src, texts, good))
+                if any(isinstance(x, ast.Call) and norm(x.func) == f"{R}.add"
+                       and norm(x.args[0]) == var for x in ast.walk(n)):
+                    mark_at_push = True
+        elif isinstance(n, ast.Call) and isinstance(n.func, ast.Attribute) \
+                and n.func.attr in ("extend", "update") and norm(
+                n.func.value) == WL and len(n.args) == 1:
+            arg = n.args[0]
+            # already counted when it sits inside a recognised for loop
+            if any(isinstance(a, ast.For) and a is not w for a in ancestors(n)
+                   if a is not w and any(a is x for x in ast.walk(w))):
+                continue
+            if isinstance(arg, (ast.GeneratorExp, ast.ListComp, ast.SetComp)) \
+                    and len(arg.generators) == 1 and isinstance(
+                    arg.generators[0].target, ast.Name):
+                g = arg.generators[0]
+                var = g.target.id
+                src = nbr_source(g.iter)
+                if src is None or norm(arg.elt) != var:
+                    unknown_push.append(norm(arg, 60))
+                    continue
+                texts = [norm(c) for c in g.ifs]
+                sources.append((src, texts, all(filter_ok(c, var)
+                                                for c in g.ifs)))
+            else:
+                src = nbr_source(arg)
+                if src is None:
+                    unknown_push.append(norm(arg, 60))
+                else:
+                    sources.append((src, [], True))
+        elif isinstance(n, ast.AugAssign) and norm(n.target) == WL:
+            unknown_push.append(norm(n, 60))
+    # marking
+    marks_pop = any(
+        isinstance(x, ast.Call) and norm(x.func) in (f"{R}.add",)
+        and len(x.args) == 1 and norm(x.args[0]) == popped
+        for x in ast.walk(w)) or any(
+        isinstance(x, ast.AugAssign) and norm(x.target) == R
+        and popped in norm(x.value) for x in ast.walk(w))
+    if marks_pop:
+        # the mark may only be guarded by `x not in R`
+        for x in ast.walk(w):
+            if isinstance(x, ast.Call) and norm(x.func) == f"{R}.add" and \
+                    norm(x.args[0]) == popped:
+                for a in ancestors(x):
+                    if a is w:
+                        break
+                    if isinstance(a, ast.If) and norm(a.test) not in (
+                            f"{popped} not in {R}",):
+                        return "bad", (f"the popped node is marked only under "
+                                       f"`{norm(a.test)}`")
+    if not sources and not unknown_push:
+        return "bad", "neighbours are not pushed onto the work list"
+    wrong = [s_ for s_ in sources if s_[0] != popped]
+    if wrong:
+        return "bad", ("neighbour loop does not range over the popped node "
+                       f"`{popped}` but over `{wrong[0][0]}`")
+    filtered = [s_ for s_ in sources if not s_[2]]
+    if filtered:
+        return "bad", ("neighbours are pushed only under "
+                       f"{filtered[0][1]}: atoms reachable only through the "
+                       "others are never visited")
+    if not sources:
+        return "unknown", f"pushes {unknown_push} not recognised"
+    if not (marks_pop or mark_at_push):
+        return "bad", "popped node is not marked visited"
+    return "ok", f"pop {popped} from {WL}, mark in {R}, push neighbours"
+
+
 def check_components(prog: Program, res: Result) -> None:
     res.rule("R-COMPONENT-SHAPE", "node_connected_component is a work-list "
              "search: pops a node, marks it, pushes every unvisited bonded "
@@ -416,51 +592,15 @@ def check_components(prog: Program, res: Result) -> None:
     fi = prog.resolve_method("MolGraph", "node_connected_component")
     if fi is None:
         raise AnalysisError("MolGraph.node_connected_component vanished")
-    loops = [n for n in ast.walk(fi.node) if isinstance(n, ast.While)]
     inst = "MolGraph.node_connected_component work-list shape"
-    ok = False
-    why = "no while loop"
-    if loops:
-        w = loops[0]
-        body = w.body
-        txt = " ; ".join(norm(b, 200) for b in body)
-        early = [n for n in ast.walk(w) if isinstance(n, (ast.Break, ast.Return))]
-        pushes = [n for n in ast.walk(w) if isinstance(n, ast.Call)
-                  and isinstance(n.func, ast.Attribute)
-                  and n.func.attr in ("append", "extend", "add", "update",
-                                      "appendleft")
-                  and norm(n.func.value) == norm(w.test).split()[0]]
-        nbr_loop = [n for n in ast.walk(w) if isinstance(n, ast.For)
-                    and ("bonded_to(" in norm(n.iter)
-                         or "_neighbors[" in norm(n.iter)
-                         or "neighbors[" in norm(n.iter))]
-        marks = "visited.add(" in txt or ".add(node)" in txt
-        if early:
-            why = "early exit inside the search loop"
-        elif not nbr_loop:
-            why = "no loop over the bonded neighbours of the popped node"
-        elif not pushes:
-            why = "neighbours are not pushed onto the work list"
-        elif not marks:
-            why = "popped node is not marked visited"
-        else:
-            # the neighbours examined must be those of the popped node
-            popped = None
-            for n in ast.walk(w):
-                if isinstance(n, ast.Assign) and isinstance(
-                        n.value, ast.Call) and isinstance(
-                        n.value.func, ast.Attribute) and n.value.func.attr in (
-                        "pop", "popleft"):
-                    popped = norm(n.targets[0])
-            if popped and all(popped in norm(l.iter) for l in nbr_loop):
-                ok = True
-            else:
-                why = "neighbour loop does not range over the popped node"
-    if ok:
-        res.ok("R-COMPONENT-SHAPE", inst, fi.loc())
-    else:
+    verdict, why = _worklist_shape(fi)
+    if verdict == "ok":
+        res.ok("R-COMPONENT-SHAPE", inst, fi.loc(), why)
+    elif verdict == "bad":
         res.bad("R-COMPONENT-SHAPE", f"{fi.short}: {why}", fi.loc(),
                 f"{inst}: {why}", instance=inst)
+    else:
+        res.unrecognised("R-COMPONENT-SHAPE", inst, fi.loc(), why)
     fi = prog.resolve_method("MolGraph", "connected_components")
     if fi is None:
         raise AnalysisError("MolGraph.connected_components vanished")
@@ -481,7 +621,8 @@ def check_components(prog: Program, res: Result) -> None:
                 why = "no component search in the guarded body"
             elif ".append(" not in g:
                 why = "component not recorded"
-            elif "visited.update(" not in g and "visited |=" not in g:
+            elif not re.search(r"visited\.update\(|visited \|=|visited = "
+                               r"visited \| |visited = visited\.union\(", g):
                 why = "component not merged into visited"
             elif any(isinstance(n, (ast.Break, ast.Return)) for n in ast.walk(l)):
                 why = "early exit from the atom loop"
@@ -489,6 +630,8 @@ def check_components(prog: Program, res: Result) -> None:
                 ok = True
     if ok:
         res.ok("R-COMPONENT-SHAPE", inst, fi.loc())
+    elif why == "no loop over self.atoms":
+        res.unrecognised("R-COMPONENT-SHAPE", inst, fi.loc(), why)
     else:
         res.bad("R-COMPONENT-SHAPE", f"{fi.short}: {why}", fi.loc(),
                 f"{inst}: {why}", instance=inst)
